@@ -293,7 +293,11 @@ func (root *Root) addExtends(undo *[]func(), extends ...*Extend) (err error) {
 			if cur == nil {
 				cur = root.dirs.get(x.Adds.Name())
 			}
-		} else if schema, _ := x.Adds.(*Schema); schema != nil && root.schema != nil {
+		} else if schema, _ := x.Adds.(*Schema); schema != nil && root.schema != nil && !root.schema.implicit {
+			// Only a schema declared by a schema block can be extended. The
+			// one made up from the types named Query, Mutation and
+			// Subscription is there or not depending on how the definitions
+			// are spread over documents.
 			cur = root.schema
 		}
 		if cur == nil {
